@@ -552,7 +552,38 @@ def case_coap_batch(p):
         return _coap_batch(loop, p)
 
 
+def case_ble_sched(p):
+    """One execution of the gated BLE harness (c06_ble.BleH), judged by its 'c17:' clause only: a read that completes carries the value of the
+    characteristic it asked for, whatever was cancelled, timed out, replayed or dropped before."""
+    from vt import explore
+    from vt.props.c06_ble import BleH
+
+    h, trace = explore.run_prefix(lambda: BleH(p), tuple(p.get("choices", ())))
+    try:
+        v = h.violations() or h.finish()
+        return [(s_, dict(detail=d, trace=trace)) for s_, d in v if s_.startswith("c17:")]
+    finally:
+        h.close()
+
+
+def _work_sched(item, seed, tier):
+    from vt import explore
+    from vt.props.c06_ble import BleH
+
+    acc = core.Acc()
+    p, root, depth = item
+    tmp = core.Acc()
+    explore.explore(lambda: BleH(p), tmp, depth=depth, case="ble_sched", params=p, root=root, prune=True)
+    tmp.viol = [v for v in tmp.viol if v["signature"].startswith("c17:")]
+    for k in list(tmp.viol_count):
+        if not k.startswith("c17:"):
+            del tmp.viol_count[k]
+    acc.merge(tmp)
+    return acc
+
+
 CASES = {
+    "ble_sched": case_ble_sched,
     "ble_request": case_ble_request,
     "ble_response": case_ble_response,
     "coap_decode": case_coap_decode,
@@ -754,10 +785,20 @@ def run(ctx):
     )
 
     ctx.pmap(_work, work)
+    # attribution under schedules: two reads of different characteristics on a real BlePairing with every GATT operation gated; cancellation,
+    # timers, link drops and replayed fragments between them
+    from vt import explore as _ex
+    from vt.props.c06_ble import BleH
+
+    sp = dict(transport="ble", seed=seed, alphabet=["req1", "req3", "acc-change", "step", "replay", "cancel", "timer", "drop"])
+    ctx.pmap(_work_sched, [(sp, r, 6 if quick else 8) for r in _ex.roots(lambda: BleH(sp), 2)])
+    ctx.bounds.update(ble_schedules=dict(alphabet=sp["alphabet"], depth=6 if quick else 8))
     ctx.exhaustive = True
     a = ctx.acc
     for name in CASES:
-        ctx.require(a.symbols[name] > 0, f"case family {name} never ran")
+        if name != "ble_sched":
+            ctx.require(a.symbols[name] > 0, f"case family {name} never ran")
+    ctx.require(a.symbols["req3"] > 0 and a.symbols["cancel"] > 0, "BLE schedule leg never ran")
     for s in ("ble:enc", "ble:plain", "ble:req:nobody", "ble:req:single", "ble:req:fragmented", "ble:fault:tid-first", "ble:fault:tid-cont",
               "ble:fault:noflag-cont", "ble:resp:bare", "ble:resp:frags1", "ble:resp:frags4", "coap:sym:ok", "coap:sym:err", "coap:sym:tid",
               "coap:sym:ctl", "coap:sym:errctl", "coap:sym:errb", "coap:op:read", "coap:op:write", "coap:op:subscribe", "coap:op:unsubscribe", f"coap:n{nmax6}"):
